@@ -161,6 +161,8 @@ def run(cdir, harnesses, jobs=8, timeout=3600, extra=None, harness_timeout=None)
             if n_und:
                 failed.append('(+ %d checks undetermined because of the failures above)' % n_und)
             st = {'Success': 'SUCCESSFUL', 'Failure': 'FAILED', 'Failed': 'FAILED'}.get(r.get('status'), str(r.get('status')))
+            if st == 'FAILED' and not r.get('checks'):
+                st = 'TIMEOUT-OR-TOOL-ERROR'   # a harness that was cut off (--harness-timeout) reports no checks at all
             res[short] = {'full_name': r['harness_id'], 'status': st, 'failed_checks': failed[:20],
                           'time_s': (r.get('duration_ms') or 0) / 1000.0, 'n_checks': len(r.get('checks', [])),
                           'log': '\n'.join(failed[:40])}
